@@ -60,6 +60,7 @@ func init() {
 		Run: func(r *core.Run) {
 			if !r.RaceMode {
 				runC14Sequential(r)
+				runC14ConflictTranslation(r)
 			}
 			runConcurrent(r, "C14")
 		},
